@@ -41,7 +41,7 @@ def main(tier):
     progs, kept = fam.compile(items)
     nst = 40 if tier == "quick" else 160
     res = fam.differential(progs, nst, clang=(tier == "thorough"),
-                           nontrivial=lambda p, r: (r.arms_total > 0 and r.arms_seen == r.arms_total) or len(r.trips) >= 2, key_of=lambda p: p.name)
+                           nontrivial=lambda p, r: (r.arms_total > 0 and r.arms_seen == r.arms_total) or len(r.trips) >= 2, key_of=lambda p: p.name, deepen=(tier == "thorough"))
     cov = fam.coverage()
     cov.update({
         "evaluations": fam.stats["evaluations"], "distinct_nontrivial": len(fam.nontrivial),
